@@ -14,3 +14,16 @@ pub assume_specification<Idx: Clone> [<std::ops::Range<Idx> as Clone>::clone] (x
     ensures r == *x;
 pub assume_specification<T: Ord> [std::cmp::min] (a: T, b: T) -> (r: T)
     ensures r == a || r == b;
+// rule D25: while handling peer input, `Vec::with_capacity(n)` is routed through this stand-in: the requested capacity must
+// be bounded by the length of an existing allocation (std aborts with "capacity overflow" for sizes above isize::MAX bytes;
+// vstd's own specification of with_capacity has no such precondition)
+pub uninterp spec fn safe_capacity(n: nat) -> bool;
+#[verifier::external_body]
+pub broadcast proof fn axiom_len_is_safe_capacity<U>(v: Vec<U>)
+    ensures safe_capacity(#[trigger] v@.len()),
+{}
+#[verifier::external_body]
+pub fn verif_with_capacity<T>(n: usize) -> (r: Vec<T>)
+    requires safe_capacity(n as nat),
+    ensures r@ == Seq::<T>::empty(),
+{ Vec::with_capacity(n) }
